@@ -96,6 +96,47 @@ func sameFields(a, b interface{}) bool {
 	return sameExported(reflect.Indirect(reflect.ValueOf(a)), reflect.Indirect(reflect.ValueOf(b)))
 }
 
+// fillResumeKey assigns the three fields of a resume key from a case, the way a caller sets them: the embedded
+// SMB_STRING is the codec's own working space and is left as it is.
+func fillResumeKey(k *types.SMB_RESUME_KEY, c wireCase) {
+	b := append(append([]byte{}, c.Bytes...), make([]byte, 21)...)[:21]
+	k.Reserved = b[0]
+	copy(k.ServerState[:], b[1:17])
+	copy(k.ClientState[:], b[17:21])
+}
+
+// fillDirectoryInformation assigns the fields of a directory-information entry from a case (the resume key field
+// by field) and returns the file name it assigned.
+func fillDirectoryInformation(v *types.SMB_DIRECTORY_INFORMATION, c wireCase) []byte {
+	n := func(i int) uint64 {
+		if i < len(c.Nums) {
+			return c.Nums[i]
+		}
+		return 0
+	}
+	b := append(append([]byte{}, c.Bytes...), make([]byte, 33)...)
+	v.ResumeKey.Reserved = b[0]
+	copy(v.ResumeKey.ServerState[:], b[1:17])
+	copy(v.ResumeKey.ClientState[:], b[17:21])
+	nameLen := int(n(5)) % 13
+	name := make([]byte, nameLen)
+	// the name may hold spaces anywhere ("MY FILE.TXT"); only trailing spaces are indistinguishable
+	// from the padding of the 8.3 field, which is why names are compared modulo trailing spaces
+	for i := range name {
+		ch := b[21+i]
+		if ch == 0 {
+			ch = 'A' + byte(i)
+		}
+		name[i] = ch
+	}
+	v.FileAttributes = uint8(n(0))
+	v.LastWriteTime = types.SMB_TIME{DwLowDateTime: uint32(n(1)), DwHighDateTime: uint32(n(2))}
+	v.LastWriteDate = types.SMB_DATE{Year: 1980 + uint16(n(3)%128), Month: uint8(n(3) >> 8 % 16), Day: uint8(n(3) >> 16 % 32)}
+	v.FileSize = uint32(n(4))
+	v.FileName = *types.NewOEM_STRINGFromString(string(name))
+	return name
+}
+
 // build returns the value, a fresh zero value to decode into, a decode function and a comparer.
 func build(c wireCase) (enc marshaler, decode func([]byte) (int, error), same func() string, reenc func() ([]byte, error), err error) {
 	n := func(i int) uint64 {
@@ -175,10 +216,7 @@ func build(c wireCase) (enc marshaler, decode func([]byte) (int, error), same fu
 		}, func() ([]byte, error) { return d.Marshal() }, nil
 	case "SMB_RESUME_KEY":
 		v := types.NewSMB_RESUME_KEY()
-		b := append(append([]byte{}, c.Bytes...), make([]byte, 21)...)[:21]
-		v.Reserved = b[0]
-		copy(v.ServerState[:], b[1:17])
-		copy(v.ClientState[:], b[17:21])
+		fillResumeKey(v, c)
 		d := types.NewSMB_RESUME_KEY()
 		return v, d.Unmarshal, func() string {
 			if d.Reserved != v.Reserved || d.ServerState != v.ServerState || d.ClientState != v.ClientState {
@@ -188,28 +226,9 @@ func build(c wireCase) (enc marshaler, decode func([]byte) (int, error), same fu
 		}, func() ([]byte, error) { return d.Marshal() }, nil
 	case "SMB_DIRECTORY_INFORMATION":
 		v := types.NewSMB_DIRECTORY_INFORMATION()
-		b := append(append([]byte{}, c.Bytes...), make([]byte, 33)...)
 		v.ResumeKey = *types.NewSMB_RESUME_KEY()
-		v.ResumeKey.Reserved = b[0]
-		copy(v.ResumeKey.ServerState[:], b[1:17])
-		copy(v.ResumeKey.ClientState[:], b[17:21])
-		nameLen := int(n(5)) % 13
-		name := make([]byte, nameLen)
-		// the name may hold spaces anywhere ("MY FILE.TXT"); only trailing spaces are indistinguishable
-		// from the padding of the 8.3 field, which is why names are compared modulo trailing spaces
-		for i := range name {
-			ch := b[21+i]
-			if ch == 0 {
-				ch = 'A' + byte(i)
-			}
-			name[i] = ch
-		}
+		name := fillDirectoryInformation(v, c)
 		trimmed := string(bytes.TrimRight(name, " "))
-		v.FileAttributes = uint8(n(0))
-		v.LastWriteTime = types.SMB_TIME{DwLowDateTime: uint32(n(1)), DwHighDateTime: uint32(n(2))}
-		v.LastWriteDate = types.SMB_DATE{Year: 1980 + uint16(n(3)%128), Month: uint8(n(3) >> 8 % 16), Day: uint8(n(3) >> 16 % 32)}
-		v.FileSize = uint32(n(4))
-		v.FileName = *types.NewOEM_STRINGFromString(string(name))
 		d := types.NewSMB_DIRECTORY_INFORMATION()
 		return v, d.Unmarshal, func() string {
 			if d.ResumeKey.Reserved != v.ResumeKey.Reserved || d.ResumeKey.ServerState != v.ResumeKey.ServerState || d.ResumeKey.ClientState != v.ResumeKey.ClientState {
@@ -782,4 +801,221 @@ func TestBlocksThroughMethods(t *testing.T) {
 		s.Class(c.subject())
 		return checkBlockAPI(c)
 	}, func(c apiCase) bool { return len(c.Steps) >= 2 })
+}
+
+// ---- a value that was encoded or decoded before, is given other field values and is encoded again -------------
+//
+// "Decodes its own encoding back to equal field values": the field values are the ones the value holds when it is
+// encoded. A caller keeps a value, sends it, updates its fields (a server updating the resume key it received)
+// and sends it again. The value is first primed (Marshal, Unmarshal of an encoding of the first field values, or
+// both), then given the second field values the way a caller assigns them - the type's own fields, never the
+// space the codec works in (the SMB_STRING embedded in a resume key) - and encoded: the encoding must decode, in
+// a fresh receiver, to the second field values and be consumed exactly. (An encoder that keeps what it computed
+// at an earlier call passes every check that encodes a freshly built value once.)
+
+type changedCase struct {
+	First  wireCase `json:"first_value"`
+	Second wireCase `json:"second_value"`
+	Prime  string   `json:"primed_by"` // marshal, unmarshal, both
+}
+
+type unmarshaler interface{ Unmarshal([]byte) (int, error) }
+
+// addressable returns v itself when it is a pointer, otherwise a pointer to a copy of it (NTLM Version is built
+// as a plain value; its Unmarshal needs a variable).
+func addressable(v marshaler) marshaler {
+	rv := reflect.ValueOf(v)
+	if rv.Kind() == reflect.Ptr {
+		return v
+	}
+	p := reflect.New(rv.Type())
+	p.Elem().Set(rv)
+	if m, ok := p.Interface().(marshaler); ok {
+		return m
+	}
+	return v
+}
+
+// assignExported assigns the exported fields of src to dst one by one (recursively through exported struct
+// members, such as the SMB_STRING inside an OEM_STRING): what a caller outside the package can assign.
+func assignExported(dst, src reflect.Value) bool {
+	if dst.Kind() != reflect.Struct || dst.Type() != src.Type() || !dst.CanSet() {
+		return false
+	}
+	for i := 0; i < dst.NumField(); i++ {
+		if !dst.Type().Field(i).IsExported() {
+			continue
+		}
+		if dst.Field(i).Kind() == reflect.Struct {
+			if !assignExported(dst.Field(i), src.Field(i)) {
+				return false
+			}
+			continue
+		}
+		dst.Field(i).Set(src.Field(i))
+	}
+	return true
+}
+
+// change gives v the field values of the case second, the way a caller would; false when the value cannot be
+// changed in place.
+func change(v marshaler, second wireCase) bool {
+	switch x := v.(type) {
+	case *types.SMB_RESUME_KEY:
+		fillResumeKey(x, second)
+		return true
+	case *types.SMB_DIRECTORY_INFORMATION:
+		fillDirectoryInformation(x, second)
+		return true
+	}
+	fresh, _, _, _, err := build(second)
+	if err != nil {
+		return false
+	}
+	dst, src := reflect.ValueOf(v), reflect.ValueOf(addressable(fresh))
+	if dst.Kind() != reflect.Ptr || src.Kind() != reflect.Ptr || dst.Type() != src.Type() {
+		return false
+	}
+	return assignExported(dst.Elem(), src.Elem())
+}
+
+// freshRoundTrip: does a freshly built value of the case encode and decode back (followed by suffix) at all?
+func freshRoundTrip(c wireCase, suffix []byte) bool {
+	v, decode, same, _, err := build(c)
+	if err != nil {
+		return false
+	}
+	enc, err := v.Marshal()
+	if err != nil {
+		return false
+	}
+	n, err := decode(append(append([]byte{}, enc...), suffix...))
+	return err == nil && n == len(enc) && same() == ""
+}
+
+// checkChanged returns the findings and whether the case was judged at all.
+func checkChanged(c changedCase) (fs []vf.Finding, judged bool) {
+	built, _, _, _, err := build(c.First)
+	if err != nil {
+		return []vf.Finding{vf.F("harness", "bad-case", "%v", err)}, false
+	}
+	if c.Second.Type != c.First.Type {
+		return []vf.Finding{vf.F("harness", "bad-case", "types %s and %s", c.First.Type, c.Second.Type)}, false
+	}
+	v := addressable(built)
+	// 1. prime
+	if c.Prime == "marshal" || c.Prime == "both" {
+		if _, err := v.Marshal(); err != nil {
+			return nil, false // the round-trip sub-check of the type reports a value the encoder refuses
+		}
+	}
+	if c.Prime == "unmarshal" || c.Prime == "both" {
+		other, _, _, _, _ := build(c.First)
+		e1, err := other.Marshal()
+		if err != nil {
+			return nil, false
+		}
+		if u, ok := v.(unmarshaler); ok {
+			u.Unmarshal(append([]byte{}, e1...)) // outcome irrelevant: it only puts the receiver in the state of a value that was received
+		} else if c.Prime == "unmarshal" {
+			return nil, false
+		}
+	}
+	// 2. the caller assigns other field values
+	if !change(v, c.Second) {
+		return nil, false
+	}
+	// 3. what a freshly built value with the second field values already does not do is the round-trip sub-check's
+	// finding (also when only the trailing bytes are what it stumbles over: they are left out then)
+	suffix := []byte(c.Second.Suffix)
+	if !freshRoundTrip(c.Second, suffix) {
+		if len(suffix) == 0 || !freshRoundTrip(c.Second, nil) {
+			return nil, false
+		}
+		suffix = nil
+	}
+	// 4. encode the changed value; a fresh receiver must get the second field values back
+	subject := c.First.Type + ".Marshal"
+	enc2, err := v.Marshal()
+	if err != nil {
+		return []vf.Finding{vf.F(subject, "changed-value-rejected", "a value primed by %s and then given other field values is refused (a freshly built value with the same field values encodes): %v", c.Prime, err)}, true
+	}
+	enc2 = append([]byte{}, enc2...)
+	_, decode, same, _, _ := build(c.Second)
+	n, err := decode(append(append([]byte{}, enc2...), suffix...))
+	if err != nil {
+		return []vf.Finding{vf.F(subject, "encoding-of-changed-value-rejected", "primed by %s: %v (encoding %x, %d trailing bytes)", c.Prime, err, enc2[:min(len(enc2), 40)], len(suffix))}, true
+	}
+	msg := same()
+	if msg == "" && n == len(enc2) {
+		return nil, true
+	}
+	kind := "encoding-of-changed-value-differs"
+	if msg != "" {
+		// are these the field values the value held before it was changed?
+		if _, decode1, same1, _, err := build(c.First); err == nil {
+			if _, err := decode1(append([]byte{}, enc2...)); err == nil && same1() == "" {
+				kind = "encoding-reflects-earlier-value"
+			}
+		}
+	}
+	return []vf.Finding{vf.F(subject, kind, "primed by %s, then given other field values: the encoding decodes differently from them (consumed %d of %d): %s (encoding %x)", c.Prime, n, len(enc2), msg, enc2[:min(len(enc2), 40)])}, true
+}
+
+// variableLength: the types whose encoding has a length that depends on the field values.
+func variableLength(typ string) bool {
+	switch typ {
+	case "SMB_STRING/01", "SMB_STRING/02", "SMB_STRING/03", "SMB_STRING/04", "SMB_STRING/05", "OEM_STRING", "Data", "Parameters", "SMB_DIRECTORY_INFORMATION":
+		return true
+	}
+	return false
+}
+
+func sameLength(a, b wireCase) bool {
+	if a.Type == "SMB_DIRECTORY_INFORMATION" { // the file name length
+		return len(a.Nums) > 5 && len(b.Nums) > 5 && a.Nums[5]%13 == b.Nums[5]%13
+	}
+	return len(a.Bytes) == len(b.Bytes)
+}
+
+func TestChangedThenEncoded(t *testing.T) {
+	s := vf.Begin(t, P, "value-changed-then-encoded")
+	per := vf.N(150, 600)
+	idx := 0
+	vf.Rapid(s, len(allTypes)*per, func(t *rapid.T) changedCase {
+		typ := allTypes[(idx/per)%len(allTypes)]
+		idx++
+		a, b := genWire(t, typ), genWire(t, typ)
+		a.Suffix = nil
+		// one case in three: the second field values have the length of the first (an encoder that keeps
+		// something it computed earlier and tells by the length whether it is still good)
+		if variableLength(typ) && rapid.IntRange(0, 2).Draw(t, "sameLength") == 0 {
+			if typ == "SMB_DIRECTORY_INFORMATION" {
+				b.Nums[5] = a.Nums[5]
+			} else {
+				unit := rapid.SliceOfN(rapid.Byte(), 1, 7).Draw(t, "unit")
+				b.Bytes = make([]byte, len(a.Bytes))
+				for i := range b.Bytes {
+					b.Bytes[i] = a.Bytes[i] ^ unit[i%len(unit)]
+					if b.Bytes[i] == 0 && nulFree(typ) {
+						b.Bytes[i] = 0x7f
+					}
+				}
+			}
+		}
+		return changedCase{a, b, rapid.SampledFrom([]string{"marshal", "unmarshal", "both"}).Draw(t, "prime")}
+	}, func(c changedCase) []vf.Finding {
+		fs, judged := checkChanged(c)
+		if !judged {
+			s.Class("not-judged")
+			return fs
+		}
+		s.Class("type:"+c.First.Type, "prime:"+c.Prime)
+		if variableLength(c.First.Type) && sameLength(c.First, c.Second) {
+			s.Class("same-length:" + c.First.Type)
+		}
+		return fs
+	}, func(c changedCase) bool {
+		return !bytes.Equal(c.First.Bytes, c.Second.Bytes) || !reflect.DeepEqual(c.First.Nums, c.Second.Nums)
+	})
 }
